@@ -222,6 +222,7 @@ func pool(s *simrt.Sim, restart bool) {
 	if restart {
 		cycles = 2 + s.Choose(2)
 	}
+	nowait := simrt.ConfigHas("nowait")
 	s.Go("shutdowner", func() {
 		for c := 0; c < cycles; c++ {
 			for i := 0; i < delay; i++ {
@@ -244,6 +245,10 @@ func pool(s *simrt.Sim, restart bool) {
 			w.shuts = append(w.shuts, sh)
 			p.Shutdown()
 			sh.ret = s.Tick()
+			if nowait && c < cycles-1 {
+				// restart right away, without waiting for the previous shutdown to complete
+				continue
+			}
 			p.ShutdownComplete.Wait()
 			w.down = true
 			s.Logf("ShutdownComplete")
